@@ -2,6 +2,7 @@ import Walrus.Proofs.Body
 import Walrus.Proofs.ParseTree
 import Walrus.Proofs.ParseView
 import Walrus.Proofs.RoundTripBody
+import Walrus.Proofs.ParseConverse
 import Walrus.Code
 
 /-!
@@ -209,6 +210,37 @@ theorem body_round_trip_in_source_terms (m : IdMaps) (e : PEnv) (entryTy : Nat) 
   have hr := (round_L e m body [0] 1 false is cs u t h ht (by simp) (by simp)).1
   rw [ho] at hr
   exact body_round_trip_is_flatten_of_source_tree m e entryTy body hw endLoc is cs u h t ht ops hr
+
+/-- **the parse of a well-nested body succeeds exactly when its recursive description answers**
+    (`buildBody_eq` one way, `expL_of_buildBody` — an induction that follows a failing description
+    through the control stack — the other): the hypothesis `expL … = some …` of the theorems above
+    is "the parse succeeded", nothing more -/
+theorem parse_answers_iff_description_answers (e : PEnv) (entryTy : Nat) (body : PL) (hw : body.WF) (endLoc : Nat) :
+    (buildBody e entryTy (body.flat ++ [(opEnd, endLoc)])).isSome = true ↔ (expL e [0] 1 false body).isSome = true := by
+  constructor
+  · intro h
+    obtain ⟨seqs, hs⟩ := Option.isSome_iff_exists.1 h
+    exact expL_of_buildBody e entryTy body hw endLoc seqs hs
+  · intro h
+    obtain ⟨r, hr⟩ := Option.isSome_iff_exists.1 h
+    obtain ⟨is, cs, u⟩ := r
+    rw [buildBody_eq e entryTy body hw endLoc is cs u hr]
+    rfl
+
+/-- the body round trip stated from the parse that happened: whenever `LocalFunction::parse`
+    answered on a well-nested body and the emission maps cover what survives (`outL` answers),
+    `emit` writes `outL` of the source tree -/
+theorem parsed_body_round_trip (m : IdMaps) (e : PEnv) (entryTy : Nat) (body : PL) (hw : body.WF) (endLoc : Nat)
+    (seqs : List PSeq) (hp : buildBody e entryTy (body.flat ++ [(opEnd, endLoc)]) = some seqs)
+    (ops : List (Nat × Op)) (u' : Bool) (ho : outL e m false body = some (ops, u')) :
+    ∃ n, ∀ fuel, n ≤ fuel → (emitBodyFuel m (PSeqs.toArena seqs) fuel 0).map (·.1) =
+        some (ops.map (·.2) ++ [⟨"End", []⟩]) := by
+  obtain ⟨r, hr⟩ := Option.isSome_iff_exists.1 (expL_of_buildBody e entryTy body hw endLoc seqs hp)
+  obtain ⟨is, cs, u⟩ := r
+  obtain ⟨seqs', hb, hn⟩ := body_round_trip_in_source_terms m e entryTy body hw endLoc is cs u hr ops u' ho
+  rw [hp] at hb
+  obtain rfl := Option.some.inj hb
+  exact hn
 
 /-- dead code and `nop`s contribute nothing to the output; a plain operator contributes itself -/
 theorem out_of_nop (e : PEnv) (m : IdMaps) (o : Op) (loc : Nat) (hn : o.name = "Nop") :
